@@ -63,7 +63,7 @@ type op struct {
 	need   func(k byte, elem string, n int) bool
 }
 
-func always(byte, string, int) bool        { return true }
+func always(byte, string, int) bool         { return true }
 func nonEmpty(_ byte, _ string, n int) bool { return n > 0 }
 func scalarElems(_ byte, e string, n int) bool {
 	return e == "int" || e == "str" || n == 0
@@ -97,6 +97,7 @@ var listOps = []op{
 	{"not-in", "r = [1 not in V, \"zz\" not in V]", true, always},
 	{"add-local-right", "r = V + [9]", true, always},
 	{"add-local-left", "r = [9] + V", true, always},
+	{"add-longer-local-left", "r = [9, 8, 7, 6] + V", true, always},
 	{"add-itself", "r = V + V", true, always},
 	{"add-empty", "r = V + []", true, always},
 	{"augassign", "r = V\nr += [9]", true, always},
@@ -246,16 +247,17 @@ func defsText() string {
 }
 
 type caseT struct {
-	Value   string `json:"value"`
-	Kind    string `json:"kind"`
-	Op      string `json:"op"`
-	Listed  bool   `json:"op_named_in_statement"`
-	Variant string `json:"variant"`
-	Local   string `json:"local_program"`
-	Other   string `json:"other_program"`
-	group   string
-	probe   string // program telling whether the obtained object rejects assignment (is a frozen wrapper)
-	vclass  string
+	Value                    string `json:"value"`
+	Kind                     string `json:"kind"`
+	Op                       string `json:"op"`
+	Listed                   bool   `json:"op_named_in_statement"`
+	Variant                  string `json:"variant"`
+	Local                    string `json:"local_program"`
+	Other                    string `json:"other_program"`
+	group                    string
+	parentLocal, parentOther string // "+branch" twins: the programs of the application itself (a twin speaks only where that holds)
+	probe                    string // program telling whether the obtained object rejects assignment (is a frozen wrapper)
+	vclass                   string
 }
 
 func kindName(k byte) string {
@@ -271,6 +273,23 @@ func instantiate(code, v, lit string) string {
 
 const sub = "subinclude(\"//defs:vals\")\n"
 
+// branchable names the list-valued applications that get a "+branch" twin: the result is extended twice, independently
+// (ra = r + [p]; rb = r + [q]); an ordinary list value never lets the second extension show through in the first.
+var branchable = map[string]bool{"sorted": true, "sorted-reverse": true, "sorted-key": true, "reversed": true, "map": true, "filter": true,
+	"add-local-right": true, "add-local-left": true, "add-longer-local-left": true, "add-itself": true, "add-empty": true, "augassign": true,
+	"slice-full": true, "slice-tail": true, "slice-head": true, "for-loop": true, "comprehension": true, "repeat-right": true, "repeat-left": true,
+	"or-value": true, "range-add": true, "dict-value-roundtrip": true, "typed-function-return": true}
+
+func init() {
+	var twins []op
+	for _, o := range listOps {
+		if branchable[o.Name] {
+			twins = append(twins, op{o.Name + "+branch", o.Code + "\nra = r + [\"p\"]\nrb = r + [\"q\"]\nr = [r, ra, rb]", o.listed, o.need})
+		}
+	}
+	listOps = append(listOps, twins...)
+}
+
 func cases() []caseT {
 	var out []caseT
 	add := func(val value, k byte, elem string, n int, lit string, vr variant, localDef, otherDef, expr string) {
@@ -283,7 +302,12 @@ func cases() []caseT {
 				continue
 			}
 			body := instantiate(o.Code, expr, lit)
-			out = append(out, caseT{Value: lit, Kind: kindName(k), Op: o.Name, Listed: o.listed, Variant: vr.Name,
+			pl, po := "", ""
+			if strings.HasSuffix(o.Name, "+branch") {
+				pb := instantiate(strings.SplitN(o.Code, "\nra = ", 2)[0], expr, lit)
+				pl, po = localDef+pb, otherDef+pb
+			}
+			out = append(out, caseT{parentLocal: pl, parentOther: po, Value: lit, Kind: kindName(k), Op: o.Name, Listed: o.listed, Variant: vr.Name,
 				Local: localDef + body, Other: otherDef + body, group: groupOf(o.Name), vclass: vr.Class,
 				probe: otherDef + map[byte]string{'l': "Y = " + expr + "\nY[0] = 0\n", 'd': "Y = " + expr + "\nY[\"zz\"] = 0\n"}[k]})
 		}
@@ -394,6 +418,12 @@ func compare(local, other obs) (string, string) {
 var onlyOrdinaryRejected int64
 
 func check(c caseT) (class, detail string, bothRejected bool) {
+	if c.parentLocal != "" {
+		// the application itself already differs: that is its own case's report, the twin adds nothing
+		if how, _ := compare(run(c.parentLocal), run(c.parentOther)); how != "" {
+			return "", "", false
+		}
+	}
 	l, o := run(c.Local), run(c.Other)
 	how, why := compare(l, o)
 	if how == "" {
